@@ -16,6 +16,13 @@ TARGET = 'checks.c05:run'
 def plan(tier, seed):
     from mc import universe as U
 
+    phases = _plan(tier, seed, U)
+    for p in phases:   # the property excludes operator parameters wider than the data dtype
+        p['cases'] = [c for c in p['cases'] if 'widening' not in c['a'] and 'widening' not in str(c.get('b'))]
+    return phases
+
+
+def _plan(tier, seed, U):
     return [
         {'name': 'x32', 'target': TARGET, 'x64': False, 'cases': U.cases(tier, ('f32',))},
         {'name': 'x64_f32', 'target': TARGET, 'x64': True, 'cases': [c for c in U.cases(tier, ('f32',)) if tier == 'thorough' or 'b' not in c], 'chunk': 5},
